@@ -71,7 +71,7 @@ _P = {
     'reward vectors diffed exactly against the model.', 'Multilinearity in every reward slot is proved for all orders (accumVal_slot_linear, C11_sum_cov); the floating-point closeness of the real sums is measured (partial). '),
  'C12': entry('Lean 4 proof (deme/locus reward decompositions, linearity, unreachable classes) + relational oracle on the real code',
     'Theorems deme_rewards_sum_one, deme_prod_sum, tbl_eq_sum_tblLocus, accumVal_congr_closed; real marginal sums, covariance sums, symmetry, PSD, '
-    'empty-deme zeros.', 'PSD needs the probabilistic representation (partial, measured). '),
+    'empty-deme zeros; the assembly layer (get_cov / cov / corr of demes and loci) modelled in PGModel/Marginals.lean with getCov_symm, cov_sum_eq_var, corr_is_normalised_cov and diffed against the real containers.', 'PSD and |corr| <= 1 need the probabilistic representation (partial, measured). '),
  'C13': entry('Lean 4 proof (kernel intertwining of sample removal for every consistent Lambda, projection and monotonicity theorems) + relational oracle',
     'Theorems kernel_intertwine, C13_sfs, C13_height, C13_tbl, lam_consistent in full generality; real SFS(n) vs projected SFS(n+1), monotone means, '
     'rate consistency on the real functions.', PT),
